@@ -13,6 +13,7 @@ from pydantic import (
 
 from rtflite.attributes import TableAttributes, TextAttributes
 from rtflite.core.constants import RTFConstants
+from rtflite.figure import _determine_image_format
 from rtflite.row import BORDER_CODES
 
 
@@ -1027,6 +1028,8 @@ class RTFFigure(BaseModel):
     def validate_positive_dimensions(cls, v):
         """Validate that every figure dimension is positive."""
         values = v if isinstance(v, list) else [v]
+        if not values:
+            raise ValueError("Figure dimensions must not be an empty list")
         if any(value <= 0 for value in values):
             raise ValueError(f"Figure dimensions must be positive. Given: {v}")
         return v
@@ -1064,5 +1067,7 @@ class RTFFigure(BaseModel):
                 path_obj = Path(fig_path)
                 if not path_obj.exists():
                     raise FileNotFoundError(f"Figure file not found: {fig_path}")
+                # Reject formats the encoder cannot embed (raises ValueError)
+                _determine_image_format(path_obj)
 
         return self
